@@ -31,7 +31,7 @@ NOT_DECIDED = ['every string comparison result', 'the search over trailing seque
 
 def run(ctx):
     for fn in (r1_never_after, r2_check_guard, r3_unmatched_typestate, r4_repr_fallback,
-               r5_comment_only, r6_summary_flags, r7_got_eval_fresh, r8_trailing_sequences):
+               r5_comment_only, r6_summary_flags, r7_got_eval_fresh, r8_trailing_sequences, r9_got_want_roles):
         ctx.rep.rule(fn, ctx)
 
 
@@ -512,6 +512,12 @@ def r8_trailing_sequences(ctx):
     ok_f = bool(etoks) and all(t[0] in ('sub', 'exact') and t[1] == 'xdoctest.checker.GotWantException' for t in etoks)
     rep.ob('C02.R8', ctx.loc(f, explicit[0].ast if explicit else f.node), 'no match -> raise a GotWantException', ok_f,
            'the explicit raise re-raises a caught got/want error' if ok_f else 'on failure check() raises %s' % sorted(etoks), anchor=CHECK)
+
+
+def r9_got_want_roles(ctx):
+    """got and want keep their sides at every call into the checker: same clause as C05.R12"""
+    from . import c05
+    c05.r12_got_want_roles(ctx, rule='C02.R9')
 
 
 # ---------------------------------------------------------------------------
